@@ -405,10 +405,15 @@ func execC03Srv(x *hysim.Run) {
 				x.Probe("needs-more-than-255-fragments")
 			}
 			x.Ev("remote reply on session %#x: %d bytes, reply address %d bytes (hooked=%v), peer datagram limit %d, header %d, needs %d fragments", sid, size, len(raddr), s.hooked, w.limit, hdr, need)
-			select {
-			case s.rq <- c03Pkt{mut.Fill(size, 'r'), from}:
-			default:
-			}
+			func() {
+				// (the socket's queue may have been closed by an injected socket error that the
+				// session has not noticed yet - possible when steps are not settled, as in race builds)
+				defer func() { recover() }()
+				select {
+				case s.rq <- c03Pkt{mut.Fill(size, 'r'), from}:
+				default:
+				}
+			}()
 		case "limit":
 			w.limit = mut.Clamp(op.Arg(0), 0, 70000)
 			x.Ev("peer datagram limit := %d", w.limit)
